@@ -175,6 +175,16 @@ def run(rep):
     rng = random.Random(rep.seed)
     n = 1200 if rep.tier == "quick" else 40000
     cases = [c for _, c in load_corpus(PID)] + [gen_case(rng) for _ in range(n)]
+    # small scope: every lower layer of at most 3 nodes with markers anywhere, under every upper layer of at most 3 nodes
+    # (markers, plain values, explicit nulls, lists) - quick: a sample of the pairs
+    lows = [t for t in gen.enum_trees(3, [REQ, 1], ["a", "b"], 2) if isinstance(t, dict) and REQ in repr(t)]
+    ups = [t for t in gen.enum_trees(3, [REQ, "v", None], ["a", "b"], 2) if isinstance(t, dict) and t]
+    pairs = [(lo, up) for lo in lows for up in ups]
+    if rep.tier == "quick":
+        pairs = random.Random(rep.seed + 31).sample(pairs, 500)
+    for lo, up in pairs:
+        cases.append({"layers": [gen.deep(lo), gen.deep(up)], "fmts": [rng.choice(["yaml", "json"]), rng.choice(["yaml", "json"])], "small_scope": True})
+    rep.extra["small_scope_pairs"] = len(pairs)
     nbad, mismatch = evaluate(rep, cases)
     from props.toolscommon import tool_cli_stage
     tool_cli_stage(rep, "bklr", random.Random(rep.seed + 909), 150 if rep.tier == "quick" else 5000)
